@@ -34,6 +34,8 @@ pub struct AppSpec {
     pub geometries: Option<Vec<Vec<(f32, f32)>>>,
     pub uuids: Option<Vec<String>>,
     pub gzip_graph: bool,
+    /// whether the optional sizes of the [graph] section are written: (n_edges, n_vertices)
+    pub graph_counts: (bool, bool),
     /// replaces the whole traversal section (speeds.txt is still written when `speed` is set)
     pub traversal_override: Option<Value>,
 }
@@ -61,6 +63,7 @@ impl AppSpec {
             geometries: None,
             uuids: None,
             gzip_graph: false,
+            graph_counts: (false, false),
             traversal_override: None,
         }
     }
@@ -134,9 +137,15 @@ impl AppSpec {
         }
         let mut access = json!({"type": "no_access_model"});
         if let Some(t) = &self.turn {
-            let mut h = String::from("arrival_heading,departure_heading\n");
-            for (a, dep) in t.headings.iter() {
-                h.push_str(&format!("{},{}\n", a, dep));
+            let mut h = String::from(if t.no_departure_column { "arrival_heading\n" } else { "arrival_heading,departure_heading\n" });
+            for (e, (a, dep)) in t.headings.iter().enumerate() {
+                if t.no_departure_column {
+                    h.push_str(&format!("{}\n", a));
+                } else if t.is_blank(e) {
+                    h.push_str(&format!("{},\n", a));
+                } else {
+                    h.push_str(&format!("{},{}\n", a, dep));
+                }
             }
             Self::write(&dir.join("headings.csv"), &h, false)?;
             let mut table = serde_json::Map::new();
@@ -168,16 +177,23 @@ impl AppSpec {
             Self::write(&dir.join("vehicle_restrictions.csv"), &s, false)?;
         }
         let state = json!({"distance": {"distance_unit": self.distance_unit, "initial": 0.0}});
+        let mut graph = json!({
+            "edge_list_input_file": format!("{}/edges{}", d, ext),
+            "vertex_list_input_file": format!("{}/vertices{}", d, ext),
+            "verbose": false
+        });
+        if self.graph_counts.0 {
+            graph["n_edges"] = json!(self.net.m());
+        }
+        if self.graph_counts.1 {
+            graph["n_vertices"] = json!(self.net.n);
+        }
         let cfg = json!({
             "parallelism": self.parallelism,
             "search_orientation": self.orientation,
             "response_persistence_policy": self.persistence,
             "response_output_policy": self.output_policy,
-            "graph": {
-                "edge_list_input_file": format!("{}/edges{}", d, ext),
-                "vertex_list_input_file": format!("{}/vertices{}", d, ext),
-                "verbose": false
-            },
+            "graph": graph,
             "algorithm": self.algorithm,
             "state": state,
             "traversal": traversal,
